@@ -193,6 +193,13 @@ func (fv *FuncVC) execBranch(x *ast.BranchStmt, st *State) *State {
 }
 
 func (fv *FuncVC) execReturn(x *ast.ReturnStmt, st *State) *State {
+	if fv.litMode {
+		// body of a function literal swept on its own: only the safety of the result expressions matters
+		for _, r := range x.Results {
+			fv.eval(r, st)
+		}
+		return fv.deadState()
+	}
 	fv.retOrd++
 	ret := fv.retOrd
 	sig := fv.fi.Obj.Type().(*types.Signature)
